@@ -1088,3 +1088,76 @@ def strip_jumps(body):
         else:
             out.append(s)
     return out
+
+
+# ---------------------------------------------------------------------------------------------
+# C04: range loops inside generators
+
+
+def c04_programs(strlens=(0, 1, 2, 3)):
+    """directed-combinatorial: collection kind x variable form x body shape"""
+    progs = []
+    kinds = []
+    for L in strlens:
+        kinds.append(("str%d" % L, ["s := rt.NondetString(7, %d)" % L], "s", "int", "rune", ["s = \"zz\""]))
+    kinds.append(("slice3", ["sl := []int{a, b, a + b}"], "sl", "int", "int", ["sl[1] = b + 7", "sl = append(sl, a + 9)", "sl = sl[:1]", "sl[2] = sl[0] + 1"]))
+    kinds.append(("slice0", ["sl := []int{}"], "sl", "int", "int", ["sl = append(sl, a + 9)"]))
+    kinds.append(("slicenil", ["var sl []int"], "sl", "int", "int", ["sl = append(sl, a + 9)"]))
+    kinds.append(("array", ["arr := [3]int{a, b, a + 1}"], "arr", "int", "int", ["arr[1] = b + 7", "arr[2] = arr[0] + 1"]))
+    kinds.append(("mapii", ["m := map[int]int{1: a, 2: b, 3: a + b}"], "m", "int", "int", ["delete(m, 2)", "m[3] = b + 7", "delete(m, 3)"]))
+    kinds.append(("mapnil", ["var m map[int]int"], "m", "int", "int", []))
+    kinds.append(("chan", ["ch := make(chan int, 3)\nch <- a\nch <- b\nclose(ch)"], "ch", "int", None, []))
+    for kname, setup, coll, kt, vt, muts in kinds:
+        forms = [("kv", "k", "v", ":="), ("k", "k", None, ":="), ("v", "_", "v", ":="), ("none", None, None, ":="), ("assign", "k", "v", "=")]
+        if vt is None:  # channel: one variable only
+            forms = [("k", "k", None, ":="), ("none", None, None, ":="), ("assign1", "k", None, "=")]
+        for fname, K, V, tok in forms:
+            def val(K=K, V=V):
+                parts = []
+                if K and K != "_":
+                    parts.append("%s*100" % K if kt == "int" else K)
+                if V:
+                    parts.append("int(%s)" % V if vt == "rune" else V)
+                return " + ".join(parts) if parts else "a"
+
+            pre = [("raw", x) for x in setup]
+            if tok == "=":
+                if V:
+                    pre.append(("raw", "var k int\nvar v %s" % ("rune" if vt == "rune" else "int")))
+                else:
+                    pre.append(("raw", "var k int"))
+            post = []
+            if tok == "=":
+                post.append(("yield", "int(k)*100 + 1" if not V else "int(k)*100 + int(v)"))
+            shapes = []
+            shapes.append(("y", [("yield", val())]))
+            shapes.append(("noy", [("assign", "t", "t + " + val())]))
+            shapes.append(("cont", [("if", "g1", [("continue",)], None), ("yield", val())]))
+            shapes.append(("brk", [("yield", val()), ("if", "g2", [("break",)], None)]))
+            for mi, mtxt in enumerate(muts):
+                shapes.append(("mutb%d" % mi, [("if", "g1", [("raw", mtxt)], None), ("yield", val())]))
+                shapes.append(("muta%d" % mi, [("yield", val()), ("if", "g1", [("raw", mtxt)], None)]))
+                shapes.append(("mutn%d" % mi, [("assign", "t", "t + " + val()), ("if", "g1", [("raw", mtxt)], None)]))
+            shapes.append(("nest", [("range", "_", "w", ":=", "[]int{1, 2}", [("yield", val() + " + w")])]))
+            for sname, body in shapes:
+                stmts = list(pre) + [("decl", "t", "0")]
+                stmts.append(("range", K, V, tok, coll, body))
+                stmts += post
+                stmts.append(("yield", "t + 5"))
+                pid = "r_%s_%s_%s" % (kname, fname, sname)
+                tags = {"range:" + kname.rstrip("0123"), "form:" + fname, "body:" + sname}
+                if kname == "array" and V and sname.startswith("mut"):
+                    tags.add("range-array-by-value+mutation")
+                if kname.startswith("map"):
+                    tags.add("map-order")
+                progs.append(Program(pid, stmts, family="rng_" + kname.rstrip("0123"), tags=tags))
+        # range inside a non-generator closure of the generator
+        if vt is not None:
+            vexpr = "int(v)" if vt == "rune" else "v"
+            stmts = [("raw", x) for x in setup]
+            stmts.append(("raw", "sum := func() int {\n\tt := 0\n\tfor k, v := range %s {\n\t\tt += k*100 + %s\n\t}\n\treturn t\n}" % (coll, vexpr)))
+            stmts += [("yield", "sum() + 1")]
+            if muts:
+                stmts += [("raw", muts[0]), ("yield", "sum() + 2")]
+            progs.append(Program("r_%s_closure" % kname, stmts, family="rng_" + kname.rstrip("0123"), tags={"range-in-closure", "range:" + kname.rstrip("0123")} | ({"map-order"} if kname.startswith("map") else set())))
+    return progs
